@@ -45,7 +45,7 @@ use d_engine_core::{
 };
 use d_engine_proto::common::entry_payload::Payload;
 use d_engine_proto::common::{Entry, EntryPayload, LogId};
-use d_engine_server::FileStorageEngine;
+use d_engine_server::{FileStorageEngine, RocksDBStorageEngine};
 use dv::{family_main, rng::Rng};
 
 const IDLE_MS: u64 = 1000;
@@ -341,6 +341,33 @@ impl Backend for FileStorageEngine {
     }
 }
 
+impl Backend for RocksDBStorageEngine {
+    type Ctx = tempfile::TempDir;
+    fn fresh() -> (Arc<Self>, tempfile::TempDir) {
+        std::fs::create_dir_all("/verif/target/tmp").unwrap();
+        let dir = tempfile::tempdir_in("/verif/target/tmp").unwrap();
+        let e = RocksDBStorageEngine::new(dir.path().join("db")).unwrap();
+        (Arc::new(e), dir)
+    }
+    fn crash(old: Arc<Self>, ctx: &tempfile::TempDir, power: bool) -> Option<Arc<Self>> {
+        if power {
+            return None;
+        }
+        // process crash: every write went to the WAL in the OS page cache, which survives; dropping the handle
+        // releases the lock file (and flushes the memtable, which does not change what a reopen sees)
+        drop(old);
+        Some(Arc::new(RocksDBStorageEngine::new(ctx.path().join("db")).unwrap()))
+    }
+    fn dump(e: &Self) -> (String, String, String) {
+        let s = show_entries(&e.log_store().get_entries(0..=u64::MAX).unwrap_or_default());
+        let b = match e.log_store().load_purge_boundary() {
+            Ok(Some(l)) => format!("{}.{}", l.index, l.term),
+            _ => "-".into(),
+        };
+        (s, "?".into(), b)
+    }
+}
+
 // ------------------------------------------------------------------------------------ case language
 fn mk_entry(i: u64, t: u64, p: u64) -> Entry {
     Entry { index: i, term: t, payload: Some(EntryPayload::command(Bytes::from(vec![p as u8]))) }
@@ -476,17 +503,33 @@ fn expected_trace(prio: &[u8; 3], mut w: bool, mut p: bool, mut c: bool, mut t: 
         });
         let Some(a) = pick else { break };
         out.push(a);
+        if a != b'c' && c {
+            // a command is queued: the notify arm hands its wake-up back (it becomes a stored permit), the
+            // timer arm skips its tick; select! is re-entered with only the command arm enabled
+            if a == b'n' {
+                if w {
+                    w = false;
+                }
+                p = true;
+            } else {
+                t = false;
+                if w {
+                    w = false;
+                    p = true;
+                }
+            }
+            out.push(b'c');
+            c = false;
+            if shutdown {
+                break;
+            }
+            continue;
+        }
         if a == b'n' {
             if w {
                 w = false;
             } else {
                 p = false;
-            }
-            if c {
-                c = false;
-                if shutdown {
-                    break;
-                }
             }
         } else {
             if w {
@@ -744,17 +787,24 @@ fn exec_tries(case: &str, tries: usize) -> String {
     let Some((head, body)) = case.rsplit_once('|') else { return "bad-case".into() };
     let ops: Option<Vec<Op>> = if body.is_empty() { Some(vec![]) } else { body.split(';').map(parse_op).collect() };
     let Some(ops) = ops else { return "bad-case".into() };
-    let file = match head {
-        "e=sim" => false,
-        "e=file" => true,
+    let (file, rocks) = match head {
+        "e=sim" => (false, false),
+        "e=file" => (true, false),
+        "e=rocks" => (false, true),
         _ => return "bad-case".into(),
     };
-    if file && ops.iter().any(|o| matches!(o, Op::Crash(true))) {
+    if (file || rocks) && ops.iter().any(|o| matches!(o, Op::Crash(true))) {
         return "bad-case".into();
     }
     for _ in 0..tries {
         let rt = tokio::runtime::Builder::new_current_thread().enable_all().start_paused(true).build().unwrap();
-        let r = if file { rt.block_on(run_case::<FileStorageEngine>(&ops)) } else { rt.block_on(run_case::<SimEngine>(&ops)) };
+        let r = if file {
+            rt.block_on(run_case::<FileStorageEngine>(&ops))
+        } else if rocks {
+            rt.block_on(run_case::<RocksDBStorageEngine>(&ops))
+        } else {
+            rt.block_on(run_case::<SimEngine>(&ops))
+        };
         if let Ok(s) = r {
             return s;
         }
@@ -1012,6 +1062,11 @@ fn structured_op(r: &mut Rng, sh: &mut Shadow, racy: bool, file: bool) -> String
 }
 
 fn structured_case(r: &mut Rng, racy: bool, file: bool) -> String {
+    structured_case_on(r, racy, if file { "e=file" } else { "e=sim" })
+}
+
+fn structured_case_on(r: &mut Rng, racy: bool, eng: &str) -> String {
+    let file = eng != "e=sim";
     RACE_BUDGET.with(|b| b.set(2));
     let mut sh = Shadow::new();
     let len = r.range(3, 12);
@@ -1023,7 +1078,7 @@ fn structured_case(r: &mut Rng, racy: bool, file: bool) -> String {
     if r.chance(2, 3) {
         ops.push(if !file && r.chance(1, 2) { "c:w".into() } else { "c:p".into() });
     }
-    format!("{}|{}", if file { "e=file" } else { "e=sim" }, ops.join(";"))
+    format!("{}|{}", eng, ops.join(";"))
 }
 
 /// scripted shapes that random structured generation reaches only rarely: restart of the log below the purge
@@ -1235,8 +1290,9 @@ fn generate(r: &mut Rng, n: usize, tier: &str) -> Vec<String> {
         out.push(match i % 20 {
             0..=9 => structured_case(r, false, false),
             10..=12 => structured_case(r, true, false),
-            13 | 14 => structured_case(r, false, true),
-            15 => scenario_case(r),
+            13 => structured_case(r, false, true),
+            14 => if i % 40 == 14 { structured_case_on(r, false, "e=rocks") } else { structured_case(r, false, true) },
+            15 => if i % 80 == 15 { scenario_case(r).replace("e=sim|", "e=rocks|").replace("c:w", "c:p") } else { scenario_case(r) },
             _ => malformed_case(r),
         });
     }
